@@ -3,14 +3,14 @@
    no Extract Constant; Z / N / positive / nat stay Coq datatypes. *)
 From Coq Require Extraction ExtrOcamlBasic.
 From Coq Require Import ZArith List.
-From GH Require Import Base.GoSem Base.Result Base.FloatBits Base.Utf8 Gen.GoConsts Gen.GoLeaf Model.Scalars Model.Strings Spec.Grammar Spec.GrammarR Model.Pool Model.Encoder Model.Decoder Model.Extraction.
+From GH Require Import Base.GoSem Base.Result Base.FloatBits Base.Utf8 Gen.GoConsts Gen.GoLeaf Model.Scalars Model.Strings Spec.Grammar Model.Pool Model.Encoder Model.Decoder Model.Extraction.
 Extraction Language OCaml.
 Extraction "model.ml"
   gencodeInt gencodeLong decode_int decode_long enc_kind dec_field_kind dec_top_int
   gintTag glongTag
   gencodeDouble decode_double is_nan64 enc_f32 dec_f32_field gencodeDate decode_date
   encode_string decode_string encode_binary decode_binary
-  hparse hparse_all pstate0 rparse_all
+  hparse hparse_all pstate0
   new_pool run_trace
   encode encode_writes array_root_elem_name lower_name capitalize_name
   decode is_nan32
